@@ -105,39 +105,76 @@ class Ctx:
         return self.scratch
 
     def pool(self, devices=1, procs=None):
-        """Spawned worker pool whose processes see `devices` emulated host devices."""
+        """Spawned worker pool whose processes see `devices` emulated host devices.  A
+        ProcessPoolExecutor is used because it reports a dead worker (e.g. killed by the kernel's
+        OOM killer) as BrokenProcessPool instead of hanging forever."""
+        from concurrent.futures import ProcessPoolExecutor
+
         key = (devices, procs)
         if key not in self._pools:
             from mc import workers
 
-            ctx = mp.get_context("spawn")
-            self._pools[key] = ctx.Pool(procs or NPROC, initializer=workers.init, initargs=(devices,))
+            self._pools[key] = ProcessPoolExecutor(procs or NPROC, mp_context=mp.get_context("spawn"), initializer=workers.init, initargs=(devices,))
         return self._pools[key]
 
     def map(self, fn, jobs, devices=1, procs=None, chunksize=1):
-        """Unordered parallel map over picklable jobs -> list of results (in job order)."""
+        """Parallel map over picklable jobs -> list of results (in job order).  If a worker process
+        dies the unfinished jobs are retried once on a fresh, half-size pool; a second failure is a
+        machinery error (exit 2), never a violation."""
+        from concurrent.futures import as_completed
+        from concurrent.futures.process import BrokenProcessPool
+
         jobs = list(jobs)
-        if not jobs:
-            return []
-        p = self.pool(devices, procs)
         out = [None] * len(jobs)
-        for i, r in p.imap_unordered(_call, [(fn.__module__, fn.__name__, i, j) for i, j in enumerate(jobs)], chunksize):
-            out[i] = r
+        todo = list(range(len(jobs)))
+        for attempt in (0, 1):
+            if not todo:
+                break
+            p = self.pool(devices, procs)
+            try:
+                futs = {p.submit(_call, (fn.__module__, fn.__name__, i, jobs[i])): i for i in todo}
+                for f in as_completed(futs):
+                    i, r = f.result()
+                    out[i] = r
+                todo = []
+            except BrokenProcessPool:
+                todo = [i for i in todo if out[i] is None]
+                self.log("a worker process died (%d jobs unfinished); %s" % (len(todo), "retrying on a fresh pool" if attempt == 0 else "giving up"))
+                self.close_pool(devices, procs)
+                if attempt == 1:
+                    raise RuntimeError("worker processes keep dying (out of memory?)")
+                procs = max(1, (procs or NPROC) // 2)
         return out
 
     def close_pool(self, devices=1, procs=None):
         p = self._pools.pop((devices, procs), None)
         if p is not None:
-            p.terminate()
-            p.join()
+            _kill_pool(p)
 
     def close(self):
         for p in self._pools.values():
-            p.terminate()
-            p.join()
+            _kill_pool(p)
         self._pools = {}
         if self.scratch and os.path.isdir(self.scratch):
             shutil.rmtree(self.scratch, ignore_errors=True)
+
+
+def _kill_pool(p):
+    procs = list(getattr(p, "_processes", {}).values())
+    try:
+        p.shutdown(wait=False, cancel_futures=True)
+    except Exception:
+        pass
+    for pr in procs:
+        try:
+            pr.terminate()
+        except Exception:
+            pass
+    for pr in procs:
+        try:
+            pr.join(5)
+        except Exception:
+            pass
 
 
 def _call(arg):
@@ -147,6 +184,29 @@ def _call(arg):
         return i, fn(job)
     except Exception as e:  # a crashing worker job is a machinery error, surfaced by the check
         return i, {"__error__": "%s: %s" % (type(e).__name__, e), "__tb__": traceback.format_exc(), "job": job}
+    finally:
+        _housekeeping()
+
+
+_JOBS_DONE = [0]
+
+
+def _housekeeping():
+    """Every solver instance leaves compiled executables (with embedded tables) in jax's caches;
+    drop them regularly so that long runs stay within memory."""
+    _JOBS_DONE[0] += 1
+    if "jax" not in sys.modules:
+        return
+    try:
+        with open("/proc/self/statm") as f:
+            rss_gb = int(f.read().split()[1]) * os.sysconf("SC_PAGE_SIZE") / 2 ** 30
+    except Exception:
+        rss_gb = 99.0 if _JOBS_DONE[0] % 8 == 0 else 0.0
+    if rss_gb > 1.2:
+        import gc
+
+        sys.modules["jax"].clear_caches()
+        gc.collect()
 
 
 def load_known():
